@@ -159,10 +159,11 @@ DiffRCall(in, op, o) ==
         {Item("C04", "missing-direct-caller", c, {}) :
            c \in {x \in RPred(rm, op.root) \ {op.root} : <<x, op.root>> \notin es}})
 
+\* clicall / clircall: the same requests made through the coca binary on a deps.json (call.dot, rcall.dot, rcallmap.json)
 DiffOp(in, op, o) ==
-  CASE op.kind = "call"  -> DiffCall(in, op, o)
-    [] op.kind = "api"   -> DiffApi(in, op, o)
-    [] op.kind = "rcall" -> DiffRCall(in, op, o)
+  CASE op.kind \in {"call", "clicall"}   -> DiffCall(in, op, o)
+    [] op.kind = "api"                    -> DiffApi(in, op, o)
+    [] op.kind \in {"rcall", "clircall"} -> DiffRCall(in, op, o)
 
 \* what must be equal when the same request is repeated in one process (C07)
 Graph(o) == [panic |-> o.panic, timeout |-> o.timeout, wellformed |-> o.wellformed,
